@@ -17,7 +17,8 @@ def mc_stage(ctx, configs, invariants_note, negatives=()):
         if r.status != "ok":
             raise tlc.TLCError("IncExplainer(%s) violates its own property %s\n%s" % (c, r.violated, r.counterexample[:3000]))
         ctx.add_tlc("MC_IncExplainer_%s %s: %s" % (c, gen_cfgs.params("mc", c), invariants_note), r)
-        zero = [a for a, n in r.coverage.items() if n[1] == 0 and not a.endswith("DrawPerm") and not a.endswith("CallLossMarg")]
+        zero = [a for a, n in r.coverage.items() if n[1] == 0 and not a.endswith("DrawPerm") and not a.endswith("CallLossMarg")
+                and not a.endswith("EmptyStorageFault")]
         if zero:
             raise tlc.TLCError("vacuity guard: actions never taken in %s: %s" % (c, zero))
     for c, inv in negatives:
